@@ -12,6 +12,7 @@ package main
 
 import (
 	"bytes"
+	"errors"
 	"fmt"
 	"os"
 	"strings"
@@ -31,6 +32,8 @@ type mystmt struct {
 	Params   []sess.MyParam
 	Rejected map[string]bool // per firewall config name: must be rejected
 	Marker   string          // a text that must never reach the database when the statement is rejected
+	// Pipelined: the statement is written in one go behind a COM_CHANGE_USER command
+	Pipelined bool
 }
 
 func myEnforceAlphabet() []mystmt {
@@ -48,6 +51,9 @@ func myEnforceAlphabet() []mystmt {
 		{Kind: "rej-query-select-t-666-spelling", SQL: "/* x */ SELECT tok,  typed, id\nFROM t WHERE id = 666;", Rejected: selDenied, Marker: "666"},
 		{Kind: "rej-ps-select-secrets", SQL: "select v from secrets where id = ?", Prepared: true, Params: []sess.MyParam{mycheck.LongParam(9)}, Rejected: map[string]bool{"deny-table": true, "allow-then-denyall": true}, Marker: "secrets"},
 		{Kind: "rej-query-unparsable", SQL: "selec tok frm t 777", Rejected: all, Marker: "777"},
+		// a denied statement written right behind a command that starts another exchange with the
+		// database (COM_CHANGE_USER), before the database has answered that command
+		{Kind: "rej-query-pipelined-after-change-user", SQL: "select v from secrets", Rejected: secretsDenied, Marker: "secrets", Pipelined: true},
 	}
 }
 
@@ -85,6 +91,14 @@ func runMyEnforceSession(r *ev.Run, env *sess.MyEnv, fw fwConfig, seq []mystmt) 
 		logBefore := len(prot.Log)
 		var res, prep *mycheck.Result
 		var err error
+		if st.Pipelined {
+			v, h := runPipelined(r, c, fw, st, ctx)
+			viol = append(viol, v...)
+			if h != "" || len(v) > 0 {
+				return viol, h
+			}
+			continue
+		}
 		if st.Prepared {
 			res, prep, err = c.PrepExec(st.SQL, st.Params)
 		} else {
@@ -245,4 +259,58 @@ func mysqlEnforcementPhase(r *ev.Run) {
 	r.States(sessions)
 	r.Set("mysql_enforcement_sessions", sessions)
 	r.Set("mysql_enforcement_depth", depth)
+}
+
+// runPipelined writes COM_CHANGE_USER and the statement in one go. The scripted database answers
+// every command that reaches it with OK (it must never see the statement when it is rejected).
+func runPipelined(r *ev.Run, c *mycheck.Client, fw fwConfig, st mystmt, ctx string) (viol [][2]string, harness string) {
+	add := func(key, format string, a ...interface{}) {
+		viol = append(viol, [2]string{"C05/mysql-enforce/" + fw.Name + "/" + key, fmt.Sprintf(format, a...)})
+	}
+	changeUser := append([]byte{0x11}, []byte("app\x00\x00appdb\x00")...)
+	ok := (&sess.MyOK{Status: sess.MyStatusAutocommit}).Encode()
+	var atDB [][]byte
+	res, err := c.S.Step([]sess.MyPacket{{Seq: 0, Payload: changeUser}, {Seq: 0, Payload: sess.MyQuery(st.SQL)}}, func(received []sess.MyPacket) []sess.MyPacket {
+		var out []sess.MyPacket
+		for _, p := range received {
+			atDB = append(atDB, p.Payload)
+			out = append(out, sess.MyPacket{Seq: 1, Payload: ok})
+		}
+		return out
+	})
+	r.Transitions(1)
+	if errors.Is(err, sess.ErrMalformed) {
+		add(st.Kind+"/"+ctx+"/malformed", "%v", err)
+		return
+	}
+	if err != nil {
+		return nil, fmt.Sprintf("%s: %v", st.Kind, err)
+	}
+	if p := c.S.PanicList(); len(p) > 0 {
+		add(st.Kind+"/"+ctx+"/panic", "proxy goroutine panicked: %v", p)
+		return
+	}
+	if !st.Rejected[fw.Name] {
+		return // an allowed statement may be forwarded: nothing to judge here
+	}
+	for _, p := range atDB {
+		if len(p) > 0 && p[0] == sess.MyComQuery {
+			add(st.Kind+"/forwarded", "a rejected statement written behind COM_CHANGE_USER reached the database: %.80q", p[1:])
+			break
+		}
+		if st.Marker != "" && len(p) > 0 && p[0] != 0x11 && bytes.Contains(p, []byte(st.Marker)) {
+			add(st.Kind+"/fragment-forwarded", "a fragment of a rejected statement reached the database")
+			break
+		}
+	}
+	gotErr := false
+	for _, p := range res.Client {
+		if len(p.Payload) > 0 && p.Payload[0] == 0xff {
+			gotErr = true
+		}
+	}
+	if !gotErr {
+		add(st.Kind+"/no-error", "the client got no error packet for a rejected statement written behind COM_CHANGE_USER")
+	}
+	return
 }
